@@ -49,7 +49,7 @@ def gen_cases(ctx):
         if spec is None:
             continue
         yield dict(mode="op", spec=spec, ops=[rng.choice(OPS) for _ in range(rng.choice([1, 2, 3]))], layout=rng.choice([None, "transposed", "slice", "expanded"]),
-                   shared=rng.random() < 0.2, seed=rng.randrange(1 << 30))
+                   shared=rng.random() < 0.2, seed=rng.randrange(1 << 30), mcs=rng.choice([None, None, "mid"]))
 
 
 def _hostile(t, how):
@@ -244,6 +244,15 @@ def run_case(case, ctx):
             pass
         tensors = dict(base, **extra)
         kw = dict(cls=spec["cls"], path=zoo.class_path(spec, 2), tags=set(tags), info=common.spec_info(spec) | {"layout:" + str(lay), "op:" + opname})
+        if case.get("mcs") == "mid":
+            # a Cholesky threshold BETWEEN the size of the parts and the size of the whole: structured (eigen-, Kronecker-, block-wise)
+            # paths of the operator run while its factors still take their direct paths
+            from linear_operator import settings
+
+            kw["info"] = kw["info"] | {"max_cholesky_size:n-1"}
+            with settings.max_cholesky_size(max(spec["n"] - 1, 1)):
+                _observe(ctx, opname, thunk, tensors, kw, f"{opname}|{spec['cls']}|{lay}|mid", pre_op=op, pre_dense=dense, tol=tol)
+            continue
         _observe(ctx, opname, thunk, tensors, kw, f"{opname}|{spec['cls']}|{lay}", pre_op=op, pre_dense=dense, tol=tol)
 
 
